@@ -33,7 +33,9 @@ RULE = ('op histories up to length 5 over {init A/B/C (equal and different sizes
         'adjacent cell / distant cell / outside the PDF grid, change source, second derivative}; trial data managers '
         'without extra fields, with a static field, with a source field, with source+pre-selection+static fields, with a '
         'global-fit-parameter dependent field (plain and is_srcevt_data); PDF '
-        'value caching on/off; Linear1D and Parabola1D; a small grid and an MJD-like grid (58000 + k/8); a case is one '
+        'value caching on/off; Linear1D and Parabola1D; a small grid and an MJD-like grid (58000 + k/8); single dataset, two '
+        'datasets (MultiDatasetTCLLHRatio) and the ns-profile function (NsProfileMultiDatasetTCLLHRatio, mean_n_sig_0 0 and 3); '
+        'maximize + Wilks test statistic as further operations; two instances driven alternately; a case is one '
         '(configuration, history), non-trivial when it contains at least one evaluation')
 TRUSTED = [
     'Coq 8.16.1 kernel incl. vm_compute (no native_compute)',
@@ -52,7 +54,11 @@ TRUSTED = [
     '_cache_R_i, ...) that are overwritten by every get_ratio before get_gradient reads them; one global-fit-parameter '
     'field depending on the interpolation parameter is modelled (several fields / several parameters are the same loop); '
     're-using ONE events array object for several trials and the photospline branch are outside',
-    'harness oracle: freshly built objects replaying the minimal history',
+    'two-dataset machine: the dataset weight factors f are modelled as a function of the source hypothesis (constant '
+    'detector signal yields in the correspondence), exactly two datasets; maximize and the test statistic are not in the model '
+    '(no minimizer): they are checked by the fresh-object predicate only',
+    'harness oracle: freshly built objects replaying the minimal history; generic probes (repeat, shared argument buffer, '
+    'arguments / constructor arguments unchanged, returned arrays owned by the caller, two instances alternately)',
 ]
 
 IMPORTS = ('From Coq Require Import ZArith List. Import ListNotations. Open Scope Z_scope.\n'
@@ -204,8 +210,10 @@ class Rig:
                 return v
             return f
         pdfs = []
+        self.ctor_args = [('ParameterGrid', gridvals, gridvals.copy())]
         for k, g in enumerate(gridvals):
             data = np.linspace(1.0, 2.0, 11) * (1.0 + 0.1 * k + 0.07 * ds) + 0.05 * np.sin(np.arange(11) * (k + 1 + ds))
+            self.ctor_args.append(('SignalMultiDimGridPDF', data, data.copy()))
             pdfs.append(({'gamma': g}, SignalMultiDimGridPDF(
                 pmm=pmm, axis_binnings=[bx], pdf_grid_data=data,
                 norm_factor_func=norm(('P', int(round(g * unit))), k), cache_pd_values=c['cache'], cfg=cfg)))
@@ -269,6 +277,9 @@ class Rig:
         for (s0, arr, cp) in self.kept:
             if not np.array_equal(arr, cp, equal_nan=True):
                 out.append((s0, 'returned-array-changed-later', f'after {site}: an array returned by an earlier {s0} call changed'))
+        for (s0, arr, cp) in self.ctor_args:
+            if not np.array_equal(arr, cp):
+                out.append((s0, 'constructor-argument-modified', f'after {site}: an array handed to the {s0} constructor changed'))
         return out
 
     def keep(self, site, arr):
@@ -297,12 +308,15 @@ class Rig:
                 return ['none']
             if kind == 'eval':
                 x = WORLDS[self.c['world']]['xs'][op[1]]
-                fp = np.array([float(NS[op[1]]), x])
+                if not hasattr(self, 'fp_buf'):
+                    self.fp_buf = np.zeros((2,), dtype=np.float64)     # the caller hands the SAME ndarray to every call
+                fp = self.fp_buf
+                fp[:] = [float(NS[op[1]]), x]
                 fp0 = fp.copy()
                 (ll, grads) = self.llh.evaluate(fp)
                 if not np.array_equal(fp, fp0):
                     self.arg_damage.append(('ZeroSigH0SingleDatasetTCLLHRatio.evaluate', 'argument-modified', 'fitparam_values changed by evaluate'))
-                self.keep('evaluate', grads)
+                self.keep('ZeroSigH0SingleDatasetTCLLHRatio.evaluate', grads)
                 return ['eval', 'Ok', [float(ll)] + [float(g) for g in grads]]
             if kind == 'ns2':
                 return ['ns2', 'Ok', [float(self.llh.calculate_ns_grad2(float(op[1])))]]
@@ -311,7 +325,7 @@ class Rig:
                 from skyllh.core.test_statistic import WilksTestStatistic
                 (llmax, fpmax, status) = self.llh.maximize(rss=RandomStateService(seed=1))
                 ts = WilksTestStatistic()(pmm=self.pmm, log_lambda=llmax, fitparam_values=fpmax)
-                self.keep('maximize', fpmax)
+                self.keep('ZeroSigH0SingleDatasetTCLLHRatio.maximize', fpmax)
                 return ['max', 'Ok', [float(llmax)] + [float(v) for v in fpmax] + [float(ts)]]
         except Exception as ex:   # the exception class is the observation
             return [kind if kind in ('eval', 'ns2', 'max') else 'none', 'Err', type(ex).__name__]
@@ -385,9 +399,13 @@ class MRig:
 
     def fitparams(self, name):
         w = WORLDS[self.c['world']]
-        if self.c['multi']['profile']:
-            return np.array([float(NS[name])])
-        return np.array([float(NS[name]), w['xs'][name]])
+        if not hasattr(self, 'fp_buf'):
+            self.fp_buf = np.zeros((1 if self.c['multi']['profile'] else 2,), dtype=np.float64)
+        fp = self.fp_buf                 # the caller hands the SAME ndarray to every call
+        fp[0] = float(NS[name])
+        if not self.c['multi']['profile']:
+            fp[1] = w['xs'][name]
+        return fp
 
     def do(self, op):
         del self.trace[:]
@@ -416,7 +434,7 @@ class MRig:
                 self.kept = (self.kept + [(cls + '.evaluate', grads, grads.copy())])[-4:]
                 return ['eval', 'Ok', [float(ll)] + [float(g) for g in grads]]
             if kind == 'ns2':
-                fp = self.fitparams('p')
+                fp = self.fitparams('p').copy()
                 fp[0] = float(op[1])
                 rec = self.pmm.create_src_params_recarray(fp)
                 v = self.llh.calculate_ns_grad2(ns=float(op[1]), ns_pidx=0, src_params_recarray=rec)
@@ -599,6 +617,7 @@ class Tracker:
                               f'{what} after a history == {what} on freshly built objects [init trial d; {what}]')
             else:
                 ctx.count('eval-outside-protocol')
+                self.unknown_nsg = True     # the ns-gradients now stem from an evaluation outside the protocol
         elif op[0] == 'ns2':
             ctx.count('ns2')
             want = None
